@@ -227,17 +227,17 @@ func nearMisses() []ref.Val {
 }
 
 func Universe(quick bool) []Case {
-	n := 4
+	n, permK, jsonK := 4, 4, 3
 	if !quick {
-		n = 5
+		n, permK, jsonK = 6, 5, 4
 	}
 	var vals []ref.Val
 	vals = append(vals, ref.Trees(n, ref.LeavesSmall())...)
 	vals = append(vals, ref.Sweep(ref.ScalarsFull())...)
 	vals = append(vals, nearMisses()...)
-	vals = append(vals, c02.PermutedMaps(ref.ComparatorKeys, 4)...)
+	vals = append(vals, c02.PermutedMaps(ref.ComparatorKeys, permK)...)
 	jsonKeys := []string{"/", "bytes", "a", "\"", "\\", " ", "\n", "\x7f", "é", "😀", "", " "}
-	vals = append(vals, c02.PermutedMaps(jsonKeys, 3)...)
+	vals = append(vals, c02.PermutedMaps(jsonKeys, jsonK)...)
 	nestKeys := []string{"a", "/", "aa", "B", ""}
 	inner := c02.PermutedMaps(nestKeys, 3)
 	for _, o := range c02.PermutedMaps(nestKeys, 2) {
@@ -263,7 +263,7 @@ func Universe(quick bool) []Case {
 
 func Main(r *core.Run) {
 	cases := Universe(r.Quick())
-	r.Rule("every in-domain tree ≤4/≤5 nodes over 13 leaves; every alphabet scalar (full float, string, bytes, link alphabets) at every position kind incl. as map key; reserved-shape near misses; every permutation of key sets ≤4 (comparator keys) and ≤3 (JSON-hostile keys: \"/\", \"bytes\", quote, backslash, U+2028, control, non-BMP); permuted map nested in permuted map; × {basicnode Any, basicnode kind prototypes, foreign refnode}. Non-trivial = contains a float, bytes, link, a map with ≥2 entries or a string needing escapes; distinct by (value with order, impl).")
+	r.Rule("every in-domain tree ≤4/≤6 nodes over 13 leaves; every alphabet scalar (full float, string, bytes, link alphabets) at every position kind incl. as map key; reserved-shape near misses; every permutation of key sets ≤4/≤5 (comparator keys) and ≤3/≤4 (JSON-hostile keys: \"/\", \"bytes\", quote, backslash, U+2028, control, non-BMP); permuted map nested in permuted map; × {basicnode Any, basicnode kind prototypes, foreign refnode}. Non-trivial = contains a float, bytes, link, a map with ≥2 entries or a string needing escapes; distinct by (value with order, impl).")
 	r.Assume("reference reader mc/ref/refjson.go over encoding/json's tokenizer; cid.Decode and base64 from the standard/ CID libraries")
 	core.ParallelFor(len(cases), func(i int) {
 		c := cases[i]
